@@ -9,7 +9,7 @@ from common import Ctx
 ID = "C09"
 PROPS = ["props/C09.v"]
 EXTRACTS = ["Solver"]
-THEOREMS = ['C09_no_candidate_is_honest_partial', 'C09_refuted_internal_errors_escape', 'C09_refuted_unbounded_recursion', 'C09_refuted_failure_not_located']
+THEOREMS = ['C09_no_candidate_is_honest_partial', 'C09_refuted_internal_errors_escape', 'C09_refuted_unbounded_recursion']
 MODES = ['conflict', 'conflict', 'dense', 'dense', 'extras', 'calm']
 RULE = ("universes (2-6 projects x 1-4 versions incl. pre/post/dev releases, requirements with the 7 operators, "
         "wildcards, extras, extra- and environment-markers, cycles, unreadable files, misnamed files), 1-3 input files, "
@@ -20,7 +20,7 @@ RULE = ("universes (2-6 projects x 1-4 versions incl. pre/post/dev releases, req
         "distinct = distinct (universe, inputs, constraints, options).")
 TRUSTED_BASE = SP.TRUSTED_BASE
 ASSUMPTIONS = SP.ASSUMPTIONS
-LEVEL_TEXT = "Theorem for all universes: a NoCandidate answer (unbounded metadata budget) means no offered candidate is readable, correctly named and inside the specifier. 'Internal errors never escape' and 'terminates after bounded work' are refuted by seven vm_compute witnesses (ValueError node gone / recursion too deep / version below zero, AssertionError, KeyError, unbounded recursion, failure naming a project absent from the returned graph), each replayed on /repo as a known finding; exception class and divergence are part of the whole-compile correspondence. The command-line part (unusable repository argument -> traceback) is covered by property C15's CLI flow model and findings, not here."
+LEVEL_TEXT = "Theorem for all universes: a NoCandidate answer (unbounded metadata budget) means no offered candidate is readable, correctly named and inside the specifier. 'Internal errors never escape' and 'terminates after bounded work' are refuted by six vm_compute witnesses (ValueError node gone / recursion too deep / version below zero, AssertionError, KeyError, unbounded recursion), each replayed on /repo as a known finding; exception class and divergence are part of the whole-compile correspondence. The command-line part (every failure incl. an unusable repository argument -> diagnostic and exit 1; repaired in /repo 0267ed8) is modelled by property C15's CLI flow (CliFlowC15), not here."
 LEVEL_NOTE = ("Trusted: Coq kernel, extraction, OCaml drivers, T1/T2 harness, packaging semantics (validated by the C17 grid), the "
               "measured set-iteration and marker oracles. Modelled, not verified: compile.py, dists.py, versions.py, containers.py.")
 TECHNIQUE = "Rocq theorems on a Gallina model of the solver + vm_compute refutation witnesses + extraction-based whole-compile differential correspondence"
